@@ -133,7 +133,7 @@ def c02(tier):
     # 3. code -> spec: seeded long sessions
     nlong = 60 if tier == "quick" else 600
     for _ in range(nlong):
-        msgs = random_history(s.rng, VOCAB_PATH, s.rng.randint(5, 40))
+        msgs = random_history(s.rng, VOCAB_PATH, s.rng.randint(5, 40), noise=s.rng.choice([0.0, 0.3]))
         whole = "".join(msgs)
         cases.append(run_case(whole))
         cases.append(runs_case(msgs))
@@ -434,7 +434,7 @@ def c06(tier):
         cases.append(proc_case(whole, 32, [1] * len(whole)))
         cases.append(proc_case(whole, 32, [len(m) for m in msgs]))
     for _ in range(60 if tier == "quick" else 600):
-        msgs = random_history(s.rng, VOCAB_FAULT, s.rng.randint(5, 40), maxunits=3)
+        msgs = random_history(s.rng, VOCAB_FAULT, s.rng.randint(5, 40), maxunits=3, noise=s.rng.choice([0.0, 0.3]))
         whole = "".join(msgs)
         cases.append(run_case(whole))
         cases.append(proc_case(whole, 64, random_chunks(s.rng, len(whole))))
@@ -477,7 +477,7 @@ def c10(tier):
         sched = s.rng.choice([[], [1] * len(whole), [len(m) for m in msgs], random_chunks(s.rng, len(whole))])
         cases.append({"kind": "failset", "iface": "main", "N": s.rng.choice([16, 32, 64]), "stream": b(whole), "chunks": sched})
     for _ in range(30 if tier == "quick" else 300):
-        msgs = random_history(s.rng, vocab, s.rng.randint(3, 12), maxunits=3)
+        msgs = random_history(s.rng, vocab, s.rng.randint(3, 12), maxunits=3, noise=s.rng.choice([0.0, 0.3]))
         whole = "".join(msgs)
         cases.append({"kind": "failset", "iface": "main", "N": 64, "stream": b(whole), "chunks": random_chunks(s.rng, len(whole))})
     for L in range(0, 141):
@@ -1361,7 +1361,7 @@ def c09(tier):
     # 3. seeded long sessions on every capacity incl. the documented 10: one run buffer, run per message, process
     for K in (1, 2, 3, 4, 10):
         for _ in range(12 if tier == "quick" else 300):
-            msgs = random_history(s.rng, QUEUE_VOCAB + ["D !", "SYST:ERR?;:SYST:ERR:COUN?"], s.rng.randint(5, 40), maxunits=3)
+            msgs = random_history(s.rng, QUEUE_VOCAB + ["D !", "SYST:ERR?;:SYST:ERR:COUN?"], s.rng.randint(5, 40), maxunits=3, noise=s.rng.choice([0.0, 0.3]))
             whole = "".join(msgs)
             cases.append(run_case(whole, iface="queue%d" % K))
             cases.append(runs_case(msgs, iface="queue%d" % K))
@@ -1512,9 +1512,6 @@ def c03_literals(rng, tier):
             out.append(("u16", "#H" + lit))
     # numeric fields of unusual length: exponent digits beyond i32/i64, long mantissas, many leading zeros
     longs = LONG_NUMS
-    _unused = ["1E2147483647", "1E2147483648", "1e-2147483649", "1E4294967296", "-2.5e+99999999999", "1e99999999999999999999", "1E-99999999999999999999",
-             "0E99999999999", "1E0000000000000000000012", "1" + "0" * 40, "0." + "0" * 40 + "1", "0" * 40 + "7", "9" * 40 + ".5", "1." + "9" * 40 + "e-40",
-             "#H" + "0" * 30 + "FF", "#B" + "1" * 70, "#Q" + "7" * 30, "#H" + "F" * 17]
     for ty in TYNAME:
         for k in longs:
             out.append((ty, k))
